@@ -1,6 +1,7 @@
 """C08 check configuration."""
 
 PROP = {
+    "thorough_scale": 4,
     "parts": [
         {"name": "server", "pkg": "internal/dnsforward",
          "files": ["dnsforward/common_world_test.go", "dnsforward/c01_test.go", "dnsforward/c08_test.go"],
